@@ -6,7 +6,7 @@ from vlib import common as C, serve as S, reqgen as G, strict_http as H, servech
 
 TRUSTED = ['Linux path resolution on the generated trees (real files on disk through the harness)']
 ASSUMPTIONS = ['file locations are identified by unique content markers rather than by instrumenting every open()']
-WITH_MODEL = False
+WITH_MODEL = True
 
 SEGS = ['..', '.', '', 'sub', 'sib0', 'lvl0', 'root', '%2e%2e', '%2E%2E', '..%2f', '....', '...', '.. ', '..;', '..\\', 'sub/..', '%2e.', '.%2e',
         'secret.txt', 'secret.html', 'index.html', 'secret', '..\x00', '\xc0\xae\xc0\xae', '．．']
